@@ -405,7 +405,7 @@ def search(ctx, boost=False):
     s = Search()
     s.rule = ("pairs (A, B) of complete declaration sequences (test corpus x corpus, generated x generated, mixed), joined with a blank line at "
               "namespace scope, inside namespace / nested namespace / extern blocks, and as class member sequences inside a class body: "
-              "parse(A+B) must equal the independent scope-wise merge of parse(A) and parse(B) with anonymous ids shifted; plus re-opened and "
+              "parse(A+B) must equal the independent scope-wise merge of parse(A) and parse(B) with anonymous ids shifted; the second sequence (with its doc comment) starting on the line on which the first one's last block closes; plus re-opened and "
               "a::b namespaces; non-trivial = both halves non-empty; distinct = distinct (A, B, context)")
     rng = ctx.rng
     corpus = [c for c in impl.corpus() if usable(c)]
@@ -455,6 +455,23 @@ def search(ctx, boost=False):
                     s.nontrivial.add((a, b, "boundary"))
                 if msg:
                     s.violations.append(dict(what=msg, case=dict(kind="pair", a=a, b=b, wrap=list(WRAPS[k % 3]))))
+    # targeted: the second sequence starts on the line on which the first one's last block closes; its doc comment is its own
+    ENDS = ["namespace q%d { }", "namespace q%d { int in%d; }", 'extern "C" { int q%d; }', "enum q%d { qa%d };", "struct q%d { int m; };",
+            "void q%d() { }", "namespace q%d { namespace r { } }", "inline namespace q%d { }", "namespace p::q%d { }"]
+    DOCFIRST = ["/** doc of b */ int b%d;", "/*! doc of b */ void b%d();", "/** doc of b */ struct b%d { int m; };", "/** doc of b */ namespace b%d { }",
+                "int b%d; ///< doc of b", "/** doc of b */ enum b%d { ba%d };"]
+    for la in ENDS:
+        for fi in DOCFIRST:
+            k += 1
+            a, b = la.replace("%d", str(k)), fi.replace("%d", str(k))
+            for wrap in (("same line", "@A@ @B@\n"), ("same line in ns", "namespace w { @A@ @B@\n}\n")):
+                s.evaluations += 1
+                s.count("same-line boundary")
+                msg, ok = check_pair(a, b, wrap)
+                if ok:
+                    s.nontrivial.add((a, b, wrap[0]))
+                if msg:
+                    s.violations.append(dict(what=msg, case=dict(kind="pair", a=a, b=b, wrap=list(wrap))))
     # targeted: re-opened namespaces through plain, nested and a::b forms
     heads = ["namespace p {", "namespace p { namespace q {", "namespace p::q {", "namespace p::q::r {", "namespace q {", "namespace {",
              "inline namespace p {", "namespace p { namespace q { namespace r {"]
